@@ -10,6 +10,7 @@ LEVEL_RULES = {}
 PLAN = {
     "C03": {
         "level": "exploration",
+        "deepen": 3,
         "rule": "pools of ~36 keys from tiny alphabets (6 names, 11 label names, 4 values, 0-10 labels, repeated names, "
                 "10 construction paths); every ordered pair + sampled triples checked against the Eq/Ord/Hash laws and the "
                 "canonical-form model; a case = unordered pair of (descriptor, path); non-trivial = same name and same label "
@@ -22,10 +23,13 @@ PLAN = {
             {"name": "clone-race", "flavour": "native", "shards": 2, "shards_thorough": 8},
             {"name": "miri-race", "flavour": "miri", "shards": 12, "shards_thorough": 64, "miriflags": IGN, "timeout": 900},
             {"name": "miri-seq", "flavour": "miri", "shards": 2, "shards_thorough": 8, "miriflags": IGN, "timeout": 900},
+            {"name": "tsan-race", "leg": "race", "flavour": "tsan", "shards": 2, "shards_thorough": 8, "scale": 0.1, "timeout": 1200, "thorough_only": True},
+            {"name": "tsan-clone-race", "leg": "clone-race", "flavour": "tsan", "shards": 2, "shards_thorough": 4, "scale": 0.1, "timeout": 1200, "thorough_only": True},
         ],
     },
     "C05": {
         "level": "exploration",
+        "deepen": 2,
         "rule": "an execution = prefill (0/1/62..66/127..129/200 values) + 2-8 role threads (pushers, data/data_with readers, clear_with "
                 "clearers, is_empty pollers) over one AtomicBucket<u64> of unique ids, every op stamped call/return from one counter; "
                 "the offline oracle applies the interval rules E1-E7 (DESIGN §3 C05) to the merged history plus a final quiescent clear. "
@@ -49,6 +53,7 @@ PLAN = {
     },
     "C13": {
         "level": "exploration",
+        "deepen": 30,
         "rule": "random recorder trees (depth 1-3) of Prefix / Filter (0-3 patterns, case-insens. on/off, DFA on/off) / Router "
                 "(0-4 routes, per-kind and ALL masks, overlapping and duplicate patterns incl. the empty one) / Fanout (0-3 wide) over "
                 "logging leaf recorders; per tree 4-24 describe / register+update operations over a prefix-rich name alphabet; after each "
@@ -61,6 +66,7 @@ PLAN = {
     },
     "C01": {
         "level": "exploration",
+        "deepen": 3,
         "rule": "seeded per-thread programs (4-34 ops, nesting depth 1-5, 1-4 threads) over Install/DropGuard(any order)/Forget/"
                 "with_local_recorder/guard-escaping-a-closure/panic+catch_unwind/Emit, where Emit ranges over a compiled table of 18 "
                 "macro shapes x 3 kinds + 4 describe shapes x 3 kinds; after every emission the logging doubles' logs are compared "
@@ -79,6 +85,7 @@ PLAN = {
     },
     "C04": {
         "level": "exploration",
+        "deepen": 6,
         "rule": "counter runs (2-16 threads x clones of one handle over the standard atomic storage; increments-only with wrap-around "
                 "starts, absolutes mixed with increments, absolutes with concurrent monotonicity readers), gauge runs with exactly "
                 "representable inc/dec, short gauge histories (2-4 threads x 2-4 ops, unique set values) checked for linearizability "
@@ -88,10 +95,12 @@ PLAN = {
         "legs": [
             {"name": "native", "flavour": "native", "shards": 4, "shards_thorough": 16},
             {"name": "miri", "flavour": "miri", "shards": 6, "shards_thorough": 32, "timeout": 1200},
+            {"name": "tsan", "flavour": "tsan", "shards": 2, "shards_thorough": 8, "scale": 0.05, "timeout": 1200, "thorough_only": True},
         ],
     },
     "C02": {
         "level": "exploration",
+        "deepen": 3,
         "rule": "cells leg: thousands of fresh RecorderOnceCell instances, each raced by 1-5 installers (1-3 attempts each, recorder "
                 "doubles with payload canary + drop counter) and 1-6 loaders (2-21 lookups each, every hit dispatched into the double); "
                 "a quarter of the trials each: winner held after the CAS / after the pointer write / a loader held after seeing "
@@ -108,6 +117,7 @@ PLAN = {
     },
     "C20": {
         "level": "exploration",
+        "deepen": 3,
         "rule": "trials leg: fresh wrapper/handle pairs (verif_build) around a recorder double that stamps enter/exit, lingers a bounded "
                 "number of steps inside each call and counts drops; 1-6 emitter threads (register/describe of all kinds) race one "
                 "recoverer (into_inner, or drop(handle) in a third of the trials); a third of the trials gate an emitter right after its "
@@ -125,6 +135,7 @@ PLAN = {
     },
     "C14": {
         "level": "exploration",
+        "deepen": 4,
         "rule": "sweep leg: every operation sequence of length <= 3 over a 9-op alphabet (clone, into_owned, drop, compare/hash, move to "
                 "another thread + clone + drop there, as_ref/Debug or KeyName/Key round trip, clone().into_owned(), Label/Key round trip, "
                 "empty/default) for each of 30 constructor shapes (borrowed / owned with len,cap in {0,1,2,7,8,33}x{=,>} / shared) over "
@@ -144,6 +155,7 @@ PLAN = {
     },
     "C06": {
         "level": "exploration",
+        "deepen": 3,
         "rule": "seq legs: random histories (20-800 ops) of get_or_create / get / delete / retain / clear / visit / get_*_handles over "
                 "1-300 keys (equal keys rebuilt through 10 construction paths with permuted labels; enough keys per shard to force map "
                 "resizes) against a reference map, with storage doubles that carry a unique id, their kind and their key; run with 16, 4 "
@@ -163,6 +175,7 @@ PLAN = {
     },
     "C16": {
         "level": "exploration",
+        "deepen": 8,
         "rule": "cycles leg: 1-5 push/drain cycles per reservoir over capacities {0,1,2,3,4,7,8,16,64,1024} and push counts "
                 "{0, cap-1, cap, cap+1, random <= 3cap+4} with unique values (+NaN/inf/-0.0): exact checks of yield set, count, "
                 "sample_rate, is_empty and emptiness of the next drain. uniform leg: 14 (capacity, stream length) shapes x 30k (quick) "
@@ -182,6 +195,7 @@ PLAN = {
     },
     "C15": {
         "level": "exploration",
+        "deepen": 15,
         "rule": "buckets leg: ascending bound lists (1-8 bounds from a pool incl. +-inf, +-0, tiny/huge) x 0-39 samples (equal to bounds, "
                 "bounds +- 1e-9, negatives, +-inf, NaN, or dyadic) recorded singly and in random batchings: count(b) == #{s <= b}, "
                 "cumulative, never decreasing over time, +Inf == count, single == batched, sums (exact on dyadic samples). matchers leg: "
@@ -199,6 +213,7 @@ PLAN = {
     },
     "C12": {
         "level": "exploration",
+        "deepen": 15,
         "rule": "registry leg: histories (5-64 steps) of update (incl. value-preserving gauge sets) / clock advance (0, timeout, timeout+-1, "
                 "2*timeout+3, random) / observe over 1-3 keys x 3 kinds incl. the same key under several kinds, all 8 kind masks, timeouts "
                 "1 ns - 1 s or none, against a per-(kind,key) idle state machine driven by a mock clock; after every observation the set of "
@@ -213,6 +228,7 @@ PLAN = {
     },
     "C07": {
         "level": "exploration",
+        "deepen": 5,
         "rule": "seq leg: per case a builder configuration (global / per-class bucket overrides, 0-2 global labels, unit suffix on/off, "
                 "quantile sets) + 1-7 metrics honouring the distinctness precondition (sanitised names, label names, not le/quantile; "
                 "key labels overriding global ones by raw name) + a history of 5-80 register/update (incl. absolute, inc/dec/set with "
@@ -232,6 +248,7 @@ PLAN = {
     },
     "C08": {
         "level": "exploration",
+        "deepen": 25,
         "rule": "hostile leg: the C07 generator with names, label names, label values, descriptions, matcher patterns and global labels "
                 "drawn from a hostile alphabet (backslash runs, quotes, newlines, CR, tabs, NUL/DEL, U+2028, '{},=#:', leading digits, "
                 "reserved names, complete fake sample / TYPE lines), every Unit, unit suffix on/off, histogram and summary; every render "
@@ -245,6 +262,7 @@ PLAN = {
     },
     "C09": {
         "level": "exploration",
+        "deepen": 3,
         "rule": "one case = one PayloadWriter lifetime: limit (0, tiny, 8192, 20000, or message length -3..+40), framing mode, global "
                 "prefix (none / empty / short / long), 0-3 global tags, key (name 0-300 bytes, 0-3 tags incl. bare tags) and 1-8 "
                 "operations from {write_counter, write_gauge, write_histogram/distribution with 0-3000 values incl. NaN/1e300, drain}, "
@@ -261,6 +279,7 @@ PLAN = {
     },
     "C10": {
         "level": "exploration",
+        "deepen": 6,
         "rule": "flush leg: a synchronous flush driver (the forwarder's loop body without socket and sleeps) around the real State/registry/"
                 "writer; per trial 1-3 incrementing threads, one thread driving an absolute-only counter (increasing values), a gauge and a "
                 "histogram (unique values), and a flusher doing 2-6 flushes + an optional idle prelude + a 3-flush quiescent tail; a "
@@ -281,6 +300,7 @@ PLAN = {
     },
     "C19": {
         "level": "exploration",
+        "deepen": 3,
         "rule": "seq leg: histories (5-55 steps) of describe (3 kinds, unit present/absent) / register+update (equal keys rebuilt through "
                 "10 construction paths with permuted labels, same name across kinds, some through with_local_recorder + macros) / snapshot "
                 "against a reference (first-registration order, described-only excluded, current counter/gauge values incl. NaN, histogram "
@@ -294,10 +314,12 @@ PLAN = {
             {"name": "concurrent", "flavour": "native", "shards": 4, "shards_thorough": 16},
             {"name": "concurrent-hooks", "flavour": "native", "shards": 2, "shards_thorough": 8, "scale": 0.5},
             {"name": "miri", "flavour": "miri", "shards": 4, "shards_thorough": 32, "miriflags": TB + " " + IGN, "timeout": 1500},
+            {"name": "tsan", "leg": "concurrent", "flavour": "tsan", "shards": 2, "shards_thorough": 8, "scale": 0.05, "timeout": 1200, "thorough_only": True},
         ],
     },
     "C17": {
         "level": "exploration",
+        "deepen": 4,
         "rule": "seeded scripts (4-19 top-level ops, nesting <= 3, 1-3 threads under one subscriber) over 7 compiled span shapes (shared "
                 "field names across shapes, Empty fields recorded later, str/bool/i64/u64/f64/Debug/Display values), contextual / explicit / "
                 "root parents, record() of declared and undeclared fields, and emissions of 3 kinds with 0-2 own labels overlapping span "
@@ -314,6 +336,7 @@ PLAN = {
     },
     "C18": {
         "level": "exploration",
+        "deepen": 8,
         "rule": "per exporter (fresh loopback port, real tokio/hyper listener): an allowlist of 0-5 entries from plain IPs, /32, /30, /25, /24, "
                 "/16, /8, 0.0.0.0/0, foreign and IPv6 entries, then 20-60 connections from harness sockets bound to 14 source addresses "
                 "in 127.0.0.0/8 (inside / outside / first and last address of blocks): well-formed GETs on 6 paths incl. /health, bursts "
@@ -329,6 +352,7 @@ PLAN = {
     },
     "C11": {
         "level": "exploration",
+        "deepen": 2,
         "rule": "per scenario: a fresh exporter on a loopback port with buffer_size in {None, 1, 4, 64, 1024}; 3 metadata entries described "
                 "first (logical sync: a throw-away client that received all of them); 1-4 clients with scripted behaviours (read; stop "
                 "reading for two rounds then resume; close; reset with SO_LINGER 0; connect late) and 1-3 emitter threads tagging every "
